@@ -17,8 +17,8 @@ PROP = dict(
     ],
     harnesses=[
         H(NP, "c25", "c25_auth_encoder", 'hand-assembled authenticator + ghost log == real ExtensionField::encode_encrypted with ModelCipher (request and response)', tier="thorough", timeout_thorough=3600),  # measured 342 s CBMC under load
-        H(NP, "c25", "c25_req_uid_body", 'request, tampered byte in 52..60', timeout=900),  # measured 425 s CBMC under load
-        H(NP, "c25", "c25_req_auth_body", 'request, tampered byte in 80..112', tier="thorough", timeout_thorough=3600),  # measured 398 s CBMC under load
+        H(NP, "c25", "c25_req_uid_body", 'request, tampered byte in 52..60', timeout=900, native_check="native::native_tampered_request_reports_nothing_authentic"),  # measured 425 s CBMC under load
+        H(NP, "c25", "c25_req_auth_body", 'request, tampered byte in 80..112', tier="thorough", timeout_thorough=3600, native_check="native::native_tampered_request_reports_nothing_authentic"),  # measured 398 s CBMC under load
         H("ntp_proto_h", "c23f", "c23_encrypted_field_frame", "function level: RawEncryptedField::from_message_bytes (the framing of an NTS encrypted field body, run in every key context before any key lookup) is total and exact for every body of up to 32 bytes with symbolic nonce/ciphertext length words", timeout=300),
 ],
     # prepared in the harness crate but NOT registered (did not finish / not re-verified in time / expected to fail):
